@@ -162,6 +162,12 @@ func TryMake(v any) (Item, error) {
 	case Convertible:
 		return val.ToStackItem()
 	default:
+		switch rv := reflect.ValueOf(val); rv.Kind() {
+		case reflect.Uint, reflect.Uint64, reflect.Uintptr:
+			// uint, uintptr and named unsigned types: a conversion to int64 would wrap above MaxInt64.
+			return (*BigInteger)(new(big.Int).SetUint64(rv.Uint())), nil
+		default:
+		}
 		i64T := reflect.TypeFor[int64]()
 		if reflect.TypeOf(val).ConvertibleTo(i64T) {
 			i64Val := reflect.ValueOf(val).Convert(i64T).Interface()
